@@ -819,6 +819,10 @@ func grpcStatusFromError(err error) (*statusv1.Status, error) {
 		}
 		status.Details = details
 	}
+	// A message that isn't valid UTF-8 (it may quote the peer's malformed input)
+	// can't be a proto3 string: sending it with the offending bytes replaced
+	// beats not being able to send the status at all.
+	status.Message = strings.ToValidUTF8(status.Message, "\uFFFD")
 	return status, nil
 }
 
